@@ -886,9 +886,16 @@ class EditableParentImpl(BaseParentImpl):
             space, cells, param,
             space_params, cells_params)
 
+    def _check_io_name(self, name):
+        # The value must be bound to a reference: assigning to the name of
+        # a cells would set the cells' value and leave the spec unreferenced
+        if name in getattr(self, "cells", ()):
+            raise KeyError("cannot assign '%s'" % name)
+
     def new_excel_range(self, name, path, range_, sheet, keyids, loadpath):
 
         from modelx.io.excelio import ExcelRange
+        self._check_io_name(name)
 
         cargs = {"range_": range_,
                  "sheet": sheet,
@@ -912,6 +919,7 @@ class EditableParentImpl(BaseParentImpl):
     def new_pandas(self, name, path, data, file_type, sheet):
 
         from modelx.io.pandasio import PandasData
+        self._check_io_name(name)
         spec = self.system.iomanager.new_spec(
             PandasData,
             io_group=self.model.interface,
@@ -930,6 +938,7 @@ class EditableParentImpl(BaseParentImpl):
     def new_module(self, name, path, module):
 
         from modelx.io.moduleio import ModuleData
+        self._check_io_name(name)
 
         spec = self.system.iomanager.new_spec(
             ModuleData,
